@@ -1220,7 +1220,10 @@ class NLDFSettingsVI(NLDFSettings):
         ) in self.l1_feat_dots:
             spec1 = "grad_rho" if j == -1 else self.l1_feat_specs[j]
             spec2 = "grad_rho" if k == -1 else self.l1_feat_specs[k]
-            usps.append(usp0 + SPEC_USPS[spec1] + SPEC_USPS[spec2])
+            # every NLDF vector in the dot product carries the rho_mult factor,
+            # the semilocal density gradient (-1) does not
+            nmult = (j != -1) + (k != -1)
+            usps.append(nmult * usp0 + SPEC_USPS[spec1] + SPEC_USPS[spec2])
         return usps
 
     def ueg_vector(self, rho=1.0):
@@ -1508,7 +1511,10 @@ class NLDFSettingsVIJ(NLDFSettings):
         ) in self.l1_feat_dots:
             spec1 = "grad_rho" if j == -1 else self.l1_feat_specs[j]
             spec2 = "grad_rho" if k == -1 else self.l1_feat_specs[k]
-            usps.append(usp0 + SPEC_USPS[spec1] + SPEC_USPS[spec2])
+            # every NLDF vector in the dot product carries the rho_mult factor,
+            # the semilocal density gradient (-1) does not
+            nmult = (j != -1) + (k != -1)
+            usps.append(nmult * usp0 + SPEC_USPS[spec1] + SPEC_USPS[spec2])
         return usps
 
     def ueg_vector(self, rho=1.0):
